@@ -29,6 +29,8 @@ EXHAUSTIVE_SUBSPACES = 'all 16842 stacks of <= 3 entries x block outcome; all hi
 EXHAUSTIVE = {"quick": False, "thorough": False}  # enumerated sub-spaces are complete, the sampled part is not
 
 KINDS = ["acm", "scm", "apush", "spush", "cb"]
+# sampled in addition: objects implementing BOTH context manager protocols (entered / only pushed)
+KINDS_EXTRA = KINDS + ["dualcm", "dualpush"]
 BEHS = ["falsy", "truthy", "raise", "raise_if_exc"]
 # sampled in addition to the enumerated behaviours: exits that raise a BaseException which is not an Exception
 BEHS_EXTRA = BEHS + ["raise_base", "raise_base_if_exc"]
@@ -63,7 +65,7 @@ def cases(tier, seed, shard, nshards):
     rng = random.Random(f"C14-{seed}-{shard}")
     for _ in range(N_STACK4[tier] // nshards):
         n = rng.choice([4, 4, 5, 3, 2])
-        yield {"kind": "stack", "spec": [[rng.choice(KINDS), rng.choice(BEHS_EXTRA)] for _ in range(n)],
+        yield {"kind": "stack", "spec": [[rng.choice(KINDS_EXTRA), rng.choice(BEHS_EXTRA)] for _ in range(n)],
                "body": rng.random() < 0.6, "susp": rng.choice([0, 1, 1, 2])}
     # histories: enumerated up to length 4 over a small alphabet, random beyond
     alphabet = [["reg", "acm"], ["reg", "cb"], ["aclose", 0], ["pop_all", 0], ["block", 0, False], ["block", 0, True],
@@ -139,10 +141,23 @@ def mk_entry(kind, beh, i, log, susp, choice):
         def __exit__(self, et, ev, tb):
             return exit_logic(et, ev, tb)
 
+    class Dual(ACM):
+        """Both protocols; `async with` (and therefore the stack) must use the async one."""
+
+        def __enter__(self):
+            log.append(("sync-enter-used", i))
+            return ("value", i)
+
+        def __exit__(self, et, ev, tb):
+            log.append(("sync-exit-used", i))
+            return False
+
     if kind == "acm":
         return ACM()
     if kind == "scm":
         return SCM()
+    if kind in ("dualcm", "dualpush"):
+        return Dual()
     if kind == "apush":
         async def aexit(et, ev, tb):
             if susp:
@@ -185,9 +200,19 @@ def run_stack(case, stats):
             return
         k, _ = spec[i]
         e = ents[i]
-        if k == "acm":
+        if k in ("acm", "dualcm"):
             async with e as v:
                 l1.append(("value", v))
+                await nest(i + 1)
+        elif k == "dualpush":
+            class W:
+                async def __aenter__(self):
+                    pass
+
+                async def __aexit__(self, *x):
+                    return await e.__aexit__(*x)
+
+            async with W():
                 await nest(i + 1)
         elif k == "scm":
             with e as v:
@@ -242,10 +267,10 @@ def run_stack(case, stats):
         async with A.ExitStack() as s:
             for i, (k, _) in enumerate(spec):
                 e = ents2[i]
-                if k in ("acm", "scm"):
+                if k in ("acm", "scm", "dualcm"):
                     v = await s.enter_context(e)
                     l2.append(("value", v))
-                elif k in ("apush", "spush"):
+                elif k in ("apush", "spush", "dualpush"):
                     if s.push(e) is not e:
                         misc.append("push did not return its argument")
                 else:
